@@ -1,12 +1,39 @@
 package e2
 
 import (
+	"fmt"
+	"os"
+	"runtime"
 	"testing"
+	"time"
 
 	"verifsim/sim"
 )
 
+// watchdog is the harness safety net of DESIGN.md 4.2: it runs outside every bubble on the real clock and ends the
+// process with status 2 (never a violation) when the controller has made no progress for a minute, which means that
+// the bubble cannot become quiescent (a goroutine of the code under test busy-waits or blocks on a sync.Mutex whose
+// holder is parked).
+func watchdog() {
+	last, since := uint64(0), time.Now()
+	for {
+		time.Sleep(5 * time.Second)
+		p, active := progressNow()
+		if !active || p != last {
+			last, since = p, time.Now()
+			continue
+		}
+		if time.Since(since) > 60*time.Second {
+			buf := make([]byte, 1<<20)
+			n := runtime.Stack(buf, true)
+			fmt.Fprintf(os.Stderr, "HARNESS-WATCHDOG: no scheduling progress for 60 s of real time; goroutines:\n%s\n", buf[:n])
+			os.Exit(2)
+		}
+	}
+}
+
 func TestWorker(t *testing.T) {
+	go watchdog()
 	sim.WorkerMain(t, map[string]sim.Engine{
 		"C22": {Run: runPool, Nontrivial: func(c *sim.Ctx) bool { return c.Counters["probe.stream_messages_delivered"] >= 3 && c.Counters["fault.stream_cuts"] >= 1 }},
 		"C32": {Run: runPool, Nontrivial: func(c *sim.Ctx) bool {
